@@ -89,7 +89,7 @@ def run(ctx):
             pi += 1
     # 2. directory trees to depth 3, relative and absolute patterns
     tcases, tmeta = [], []
-    for i in range(40 if quick else 600):
+    for i in range(40 if quick else 6000):
         dirs = set()
         files = set()
         for _ in range(rng.randint(2, 10)):
@@ -111,6 +111,21 @@ def run(ctx):
         absolute = rng.random() < 0.3
         tcases.append({"op": "glob", "tree": entries, "patterns": pl, "absolute": absolute})
         tmeta.append((sorted(files), entries, pl, absolute))
+    # directory sizes: the listing of a directory must not depend on how many entries it has (chunked reads, capacity boundaries)
+    counts = [0, 1, 2, 31, 32, 33, 63, 64, 65, 127, 128, 129, 192, 256] if quick else list(range(0, 70)) + list(range(120, 136)) + list(range(188, 196)) + [255, 256, 257, 511, 512, 513, 1024]
+    for n in counts:
+        for nd in (0, 4):
+            if n < nd:
+                continue
+            names = ["f%04d.txt" % k for k in range(n - nd)]
+            subd = ["sub%d" % k for k in range(nd)]
+            entries = [[d, True] for d in subd] + [[f, False] for f in names] + [[d + "/x.txt", False] for d in subd]
+            files = sorted(names + [d + "/x.txt" for d in subd])
+            tcases.append({"op": "glob", "tree": entries, "patterns": ["*", "*.txt", "f*", "f0*1.txt", "sub*/x.txt"], "absolute": False})
+            tmeta.append((files, entries, ["*", "*.txt", "f*", "f0*1.txt", "sub*/x.txt"], False))
+            nested = [["top", True], ["top/in", True]] + [["top/in/" + f, False] for f in names]
+            tcases.append({"op": "glob", "tree": nested, "patterns": ["top/in/*", "t*/i*/*.txt", "top/*/f*"], "absolute": n % 2 == 1})
+            tmeta.append((sorted("top/in/" + f for f in names), nested, ["top/in/*", "t*/i*/*.txt", "top/*/f*"], n % 2 == 1))
     tres = vh.run_cases(tcases, shards=8)
     tl = ["(t%d glob %s (%s))" % (i, tree_sexp(m[1]), " ".join("h" + p.encode().hex() for p in m[2])) for i, m in enumerate(tmeta)]
     tm = model.run_model(tl, shards=8)
